@@ -148,6 +148,7 @@ type node struct {
 	// changed by an event that was STALE w.r.t. the store when it was delivered (and has not been brought back
 	// in line with the store since), and which addresses those events dropped / resurrected
 	staleSubs  map[string]string // subscriber -> description of the stale event that changed its memory
+	revived    map[string]string // lease: subscriber whose lapsed lease a late echo of its own (still stored) put revived in memory
 	staleAddrs map[string]string // address -> subscriber whose stale event dropped / resurrected it
 	steer      steering
 	// evidence for the listed findings store-duplicate-address/expired-record* (KF-C12-6/6b/7)
@@ -226,6 +227,14 @@ func (n *node) failOn(kind string, subs, addrs []string, f string, a ...any) *vi
 		if why != "" {
 			sig = "C12/dist-" + n.cs.Mode + "/after-racy-delivery"
 			msg = "[" + kind + " after " + why + "] " + msg
+		} else {
+			for _, s := range subs {
+				if d, ok := n.revived[s]; ok {
+					sig = "C12/dist-" + n.cs.Mode + "/after-lapsed-lease-revived-by-late-echo"
+					msg = "[" + kind + " after " + d + "] " + msg
+					break
+				}
+			}
 		}
 	}
 	return &violation{sig, msg + "\n  pool " + n.cs.CIDR + fmt.Sprintf(" unit /%d grace %d", n.cs.Unit, n.cs.Grace) +
@@ -487,6 +496,8 @@ func (n *node) deliverAt(i int) *violation {
 			}
 			if n.expired[sub] && got == want {
 				n.touch(sub) // the lease is live again at the current epoch
+				// ... in memory only: the stored record keeps its old epoch and the next clean-up pass removes it
+				n.revived[sub] = fmt.Sprintf("the late echo #%d of %s's own put revived its lapsed lease in memory; the stored record kept its old epoch", ev.seq, sub)
 			}
 		}
 		return nil
@@ -611,7 +622,7 @@ func runDist(t *testing.T, cs *distCase, rc runCfg) *runOut {
 	out := &runOut{classes: map[string]bool{}, stopRecs: -1}
 	body := func() {
 		n := &node{cs: cs, out: out, touched: map[string]uint64{}, expired: map[string]bool{},
-			staleSubs: map[string]string{}, staleAddrs: map[string]string{}, loadTouched: map[string]bool{}}
+			staleSubs: map[string]string{}, staleAddrs: map[string]string{}, loadTouched: map[string]bool{}, revived: map[string]string{}}
 		if !cs.Exercise {
 			n.steer = steering{
 				leaseRestart: cs.Mode == "lease" && vstat.IsListed("C12/dist-lease/restart-differs-from-store"),
